@@ -16,7 +16,7 @@ Not decided: equality of received and sent sequences; behaviour under flow contr
 """
 import re
 from paths import refine_cuts, Inter
-from common import short, slice_locals, ref_local
+from common import short, slice_locals, ref_local, nested_closures, closure_operand, closure_returns
 import guards
 from cfg import op_place
 import k11
@@ -156,27 +156,36 @@ def r04_1(ctx, fx):
                     if (sw[0], lab) not in none_edges:
                         some_edges.add((sw[0], lab))
         from_none = fn.reach([n_ for sw_, lab in none_edges for n_, l in fn.succs(sw_) if l == lab], cut=some_edges) if none_edges else set()
-        for i, c in enumerate(remote):
-            unb = []
-            for l in slice_locals(fn, c.args[0], strict=True):
-                for node, kind, pl in fn.defs().get(l, []):
-                    if node not in from_none:
+        def unbounded_defs(l, seen):
+            """definitions of local l on the no-maximum edge that are not `min(.., CONST)` / a constant, followed through copies (a
+            value chosen per arm of a match / map_or_else is a copy of each arm's result)"""
+            if l in seen:
+                return []
+            seen.add(l)
+            out = []
+            for node, kind, pl in fn.defs().get(l, []):
+                if node not in from_none or len(fn._lhs_of((node, kind, pl))) != 1:
+                    continue
+                if kind == "call":
+                    d = fn.call_at(node)
+                    if re.search(r"cmp::min$|Ord>?::min$", d.name) and any(isinstance(fn.const_value(a), int) or any(r[0] == "const" for r in fn.roots(a)) and not any(r[0] == "call" for r in fn.roots(a)) for a in d.args):
                         continue
-                    if kind == "call":
-                        d = fn.call_at(node)
-                        if re.search(r"cmp::min$|Ord>?::min$", d.name) and any(isinstance(fn.const_value(a), int) or any(r[0] == "const" for r in fn.roots(a)) and not any(r[0] == "call" for r in fn.roots(a)) for a in d.args):
-                            continue
-                        unb.append(fn.site(node))
-                    elif kind == "assign" and pl["rv"]["r"] in ("use", "cast"):
-                        o = pl["rv"]["o"]
-                        q = o.get("m") or o.get("c")
-                        if q and q[0] in slice_locals(fn, c.args[0], strict=True):
-                            continue      # a copy inside the slice: its source is examined itself
-                        if isinstance(fn.const_value(o), int):
-                            continue
-                        unb.append(fn.site(node))
-                    else:
-                        unb.append(fn.site(node))
+                    out.append(fn.site(node))
+                elif kind == "assign" and pl["rv"]["r"] in ("use", "cast"):
+                    o = pl["rv"]["o"]
+                    q = o.get("m") or o.get("c")
+                    if isinstance(fn.const_value(o), int):
+                        continue
+                    if q and len(q) == 1 and not (1 <= q[0] <= fn.argc):
+                        out += unbounded_defs(q[0], seen)
+                        continue
+                    out.append(fn.site(node))
+                else:
+                    out.append(fn.site(node))
+            return out
+        for i, c in enumerate(remote):
+            q0 = c.args[0].get("m") or c.args[0].get("c")
+            unb = unbounded_defs(q0[0], set()) if q0 and len(q0) == 1 else [fn.site(c.node)]
             reach_alloc = c.node in from_none
             ctx.ob("R04.1", "poll_next/alloc#%d-without-a-maximum-is-bounded-by-a-constant-step" % i, bool(none_edges) and (not reach_alloc or not unb), site=fn.site(c.node), cfg=fx.cfg,
                    detail="definitions of the allocated size on the no-maximum edge that are not min(.., CONST): %s" % unb)
@@ -187,11 +196,30 @@ def r04_1(ctx, fx):
     if fn is not None:
         mn = fn.calls(r"cmp::min$")
         ub = fn.calls(r"unsigned_varint::encode::usize_buffer$")
-        ctx.anchor("R04.1", "read_payload_size: min(len, usize_buffer().len())", min(len(mn), len(ub)), 1, cfg=fx.cfg)
+        # the scan for the terminating byte looks at positions < min(buffer.len(), max_len) only, written as
+        #  (a) `for i in 0..min(buffer.len(), max_len) { buffer[i] }`, or
+        #  (b) an iterator over the buffer cut off by `take(max_len)`: `buffer.iter().take(max_len)` + enumerate / position / a loop
+        is_maxlen0 = lambda o: any(r[0] == "call" and r[1].endswith("unsigned_varint::encode::usize_buffer") for r in fn.roots(o))
+        takes = [c for c in fn.calls(r"Iterator>?::take$") if len(c.args) == 2 and is_maxlen0(c.args[1])
+                 and any(r[0] == "call" and re.search(r"slice::(<impl \[T\]>::)?iter$", r[1]) for r in fn.roots(c.args[0])) and any(r[0] == "param" and r[1] == 1 for r in fn.roots(c.args[0]))]
+        ctx.anchor("R04.1", "read_payload_size: min(len, usize_buffer().len()) / buffer.iter().take(max_len)", max(min(len(mn), len(ub)), len(takes)), 1, cfg=fx.cfg)
         rng = [s for n, s in fn.assigns() if s["rv"]["r"] == "agg" and s["rv"]["adt"].endswith("ops::Range")]
         ok = bool(rng) and bool(mn) and all(mn[0].dest[0] in slice_locals(fn, s["rv"]["ops"][1]) for s in rng)
+        il_all = [(fn, c) for c in fn.calls(r"unsigned_varint::decode::is_last$")] + [(cl, c) for cl in nested_closures(fx, fn) for c in cl.calls(r"unsigned_varint::decode::is_last$")]
+        if not ok and takes and not rng:
+            # every byte that is tested comes out of the cut-off iterator: the loop / adaptor that feeds is_last draws from `take(..)`
+            fed = True
+            for holder, c in il_all:
+                if holder is fn:
+                    fed = fed and any(("call", t.name) in fn.roots(c.args[0]) for t in takes)
+                else:
+                    users = [u for u in fn.calls(r"Iterator>?::(position|find|find_map|any|all|take_while|skip_while|map_while|filter|try_for_each)$")
+                             if len(u.args) >= 2 and closure_operand(fx, fn, u.args[1]) is not None and closure_operand(fx, fn, u.args[1]).key == holder.key]
+                    fed = fed and bool(users) and all(any(("call", t.name) in fn.roots(u.args[0]) for t in takes) for u in users) \
+                        and all(any(x.startswith("param:_2") for x in guards.rootstrs(holder, a)) for a in c.args)
+            ok = fed and bool(il_all)
         ctx.ob("R04.1", "read_payload_size/scan-bounded-by-min(len,max_len)", ok, site=fn.site(fn.entry), cfg=fx.cfg,
-               detail="the loop range end is the min(..) result: the index stays inside the buffer and the scan ends after the longest varint")
+               detail="the loop range end is the min(..) result, or the bytes tested come from buffer.iter().take(max_len): the index stays inside the buffer and the scan ends after the longest varint")
         # NotEnoughBytes (the caller then reads one more byte into its fixed size buffer) only while len < max_len
         def is_blen(f, o):
             return any(c.dest[0] in slice_locals(f, o, strict=True) for c in f.calls(r"slice::(<impl \[T\]>::)?len$") if re.match(r"^&?_1\*?$", f.origin(c.args[0])))
@@ -206,7 +234,19 @@ def r04_1(ctx, fx):
         il = fn.calls(r"unsigned_varint::decode::is_last$")
         # every exit that is not provably an Err (an `Ok(..)` literal, or the decoder's own Result handed on through map / map_err)
         oks = [n for n, sh in fn.exits() if not all(s.startswith("Err") for s in sh)]
-        ok = bool(il) and all(any(fn.only_via(n, sw, [t]) for sw, t, f in fn.bool_tests(il[0].dest[0])) for n in oks) and bool(oks)
+        found = [(sw, t) for c in il for sw, t, f in fn.bool_tests(c.dest[0])]
+        # `position(|b| is_last(*b))` / `find(..)`: the Some edge of its result is "a terminating byte was found"
+        for u in fn.calls(r"Iterator>?::(position|find)$"):
+            cl = closure_operand(fx, fn, u.args[1]) if len(u.args) >= 2 else None
+            if cl is None or not u.dest:
+                continue
+            rets = closure_returns(cl)
+            if rets and all(r is not None and r[0] == 1 and r[1].matches(r"unsigned_varint::decode::is_last$") for r in rets):
+                cp = fn.copies_of(u.dest[0]) | {u.dest[0]}
+                for sw in fn.discr_switches():
+                    if sw[1] and sw[1][0] in cp and len(sw[1]) == 1:
+                        found += [(sw[0], l) for l in fn.variant_edges(sw, "Some") if l not in fn.variant_edges(sw, "None")]
+        ok = bool(found) and all(any(fn.only_via(n, sw, [t]) for sw, t in found) for n in oks) and bool(oks)
         ctx.ob("R04.1", "read_payload_size/Ok-only-after-is_last", ok, site=fn.site(fn.entry), cfg=fx.cfg)
 
 
